@@ -34,6 +34,9 @@ pub struct TreeCfg {
 const HOSTILE_PIECES: &[&str] = &[
     " ", "  ", "\n", "\t", "'", "\"", "\\", "-", "--", "{}", "$(x)", "*", "?", "[a]", "!", "(", ")", ";", "+", ",",
     "-delete", "-print", "-exec", "-o", "-quit", "-prune",
+    // other control characters: a carriage return (also as the last byte of a name), escape,
+    // vertical tab, delete
+    "\r", "\r", "\u{1b}", "\u{b}", "\u{7f}", "\u{1}",
     "\u{e9}", "\u{1F600}", "a", "b", "Z", "0", ".", "..x", "=", "%", "%p", "\\n", "`", "&", "|", ">", "#", "~",
 ];
 
